@@ -428,7 +428,7 @@ func innermost(e *univ.Expr) string {
 }
 
 func checkC01(c *fw.Ctx, pc probeCase, recs []reflect.Value, cfg config, out []byte, desc string, detail map[string]interface{}, chain, tagc string) {
-	for pass := 0; pass < 3; pass++ {
+	for pass := 0; pass < 4; pass++ {
 		ptr := pass >= 1
 		var res filedrv.Result
 		target := "T"
@@ -438,6 +438,14 @@ func checkC01(c *fw.Ctx, pc probeCase, recs []reflect.Value, cfg config, out []b
 		case 1:
 			res = filedrv.Read(out, cfg.mode, pc.probe.Type, true, -1, nil)
 			target = "*T"
+		case 3:
+			// a streaming consumer: each record copied and its bank closed at once, so that later records are
+			// decoded into recycled banks (what an earlier, bigger record left there must not show through)
+			if len(recs) < 2 {
+				continue
+			}
+			res = filedrv.ReadClosing(out, cfg.mode, pc.probe.Type)
+			target = "T, every bank closed as soon as its record is copied"
 		default:
 			// the caller's own *T, already used for a read of the same file that was abandoned at the last record
 			if len(recs) < 2 {
@@ -838,12 +846,85 @@ func runShards(c *fw.Ctx, w which) {
 	c.Sample(map[string]interface{}{"kind": "one FileWriter, several files", "histories": n})
 }
 
+// Registration history around NewEncoderFor: an encoder made AFTER a schema registration that changes what the row
+// type's schema is must write rows that match the schema it puts into the header — whatever encoders were made for
+// the same type before.
+type RegPrice float64
+
+type RegRow struct {
+	A int64    `json:"a"`
+	P RegPrice `json:"p"`
+}
+
+func runRegistrationHistory(c *fw.Ctx) {
+	rows := []RegRow{{A: 1, P: 2.5}, {A: -7, P: 0}, {A: 3, P: -1e300}}
+	write := func(step string) {
+		for _, comp := range []string{"null", "snappy"} {
+			c.Eval(1)
+			desc := "NewEncoderFor[RegRow] " + step + " (" + comp + ")"
+			locus := "registration-history|" + step
+			c.Begin(locus, desc)
+			c.Nontrivial(desc)
+			c.Guard(locus, desc, desc, func() {
+				var buf bytes.Buffer
+				e, err := avro.NewEncoderFor[RegRow](&buf, avro.Compression(comp), 0)
+				if err != nil {
+					c.Violation("encoder-error|"+locus, fmt.Sprintf("%v — %s", err, desc), desc)
+					return
+				}
+				for i := range rows {
+					if err := e.Encode(&rows[i]); err != nil {
+						c.Violation("encoder-error|"+locus, fmt.Sprintf("%v — %s", err, desc), desc)
+						return
+					}
+				}
+				e.Flush()
+				p, err := ref.ParseFile(buf.Bytes())
+				if err != nil {
+					c.Violation("not-a-container|"+locus, fmt.Sprintf("%v — %s", err, desc), desc)
+					return
+				}
+				hs, err := ref.ParseSchema(p.Meta["avro.schema"])
+				if err != nil {
+					c.Violation("schema-not-avro|"+locus, fmt.Sprintf("%v — %s", err, desc), desc)
+					return
+				}
+				i := 0
+				for _, b := range p.Blocks {
+					ds, derr := ref.DecodeAll(hs, b.Payload, b.Count)
+					if derr != nil {
+						c.Violation("payload-not-avro|"+locus, fmt.Sprintf("under the schema in the header (%s) a block does not decode: %v — %s", p.Meta["avro.schema"], derr, desc), desc)
+						return
+					}
+					for _, d := range ds {
+						if i < len(rows) && (len(d.L) != 2 || d.L[0].I != rows[i].A) {
+							c.Violation("wrong-datum|"+locus, fmt.Sprintf("row %d decodes as %s, written %+v — %s", i, d, rows[i], desc), desc)
+							return
+						}
+						i++
+					}
+				}
+				if i != len(rows) {
+					c.Violation("wrong-record-count|"+locus, fmt.Sprintf("%d rows, %d written — %s", i, len(rows), desc), desc)
+				}
+			})
+		}
+	}
+	write("before any registration")
+	s, _ := avro.SchemaFromString(`["null","double"]`)
+	avro.RegisterSchema(reflect.TypeOf(RegPrice(0)), s)
+	write("after RegisterSchema(RegPrice, [null,double])")
+	s2, _ := avro.SchemaFromString(`["double","null"]`)
+	avro.RegisterSchema(reflect.TypeOf(RegPrice(0)), s2)
+	write("after RegisterSchema(RegPrice, [double,null])")
+}
+
 func rule(tier string, what string) string {
 	d := "depth<=1 statically (320 generated named types through the real generic NewEncoderFor[T]/Encoder[T]) and dynamically; depth 2 dynamically (reflect.StructOf; 256 expressions × 2 tags)"
 	if tier == "thorough" {
 		d = "depth<=1 statically (320 generated types through the real generic Encoder[T]) and dynamically; depth 2 (256 expressions × 4 tags) and depth 3 (1024 expressions) dynamically"
 	}
-	return "probe struct types struct{c0; F τ `tag`; c1; c2} with canary fields, τ over 16 leaves {bool,int,int16,int32,int64,float32,float64,string,[]byte,time.Time,null.Int/Bool/Float/String/Time,Rec} and wrappers {*τ,[]τ,map[string]τ,struct{X τ}}: " + d + "; per type: every value sequence of length<=2 over the full value alphabet, every length-3 sequence over 3 representatives × {null,deflate,snappy} × block size {0,1,size of two records,65536} × every subset of flush positions, reader rotating over {full reads, 1-byte reads, data+EOF, *bytes.Buffer, 16-byte *bufio.Reader, every other Read returning (0,nil)}; every length-3 sequence again with a flush after each record where the writer refuses the first write of one of the flushes once (nothing consumed) and the flush is retried; 66 multi-field record types (every arrangement of six *int64 / *string fields, and two mixed ones with slices, maps and nested pointers) with 4 value patterns in sequences of <=3 (allocation order inside one record); a record of 130 fields, a map with a 70 000-byte key among 300 others, a record type that takes 40–70 pointed-to values of one type from its bank, and one with arrays of up to 100 zero-width items (records without serialisable fields); for the string and []byte leaves also records of 66–70 kB a 400-record block of >64 KiB (larger than the reader's read-ahead chunk) and a block of 9000 identical records (best-case compression ratio) under every codec; the file is read into T, into a fresh *T, and into a caller-owned *T already used by an earlier read that its callback abandoned at the last record; every record is compared twice: as deep-copied inside the callback, and as a plain struct copy kept by the caller until ReadFile has returned (banks left open); " + what + "; plus FileWriter used directly for 1–3 files at once (headers through WriteHeader or AppendHeader in every combination, 0–4 single-row blocks dealt round-robin), each file parsed on its own; a case is one (type, sequence, configuration); non-trivial = encoding succeeded and the output reached the oracle"
+	return "probe struct types struct{c0; F τ `tag`; c1; c2} with canary fields, τ over 16 leaves {bool,int,int16,int32,int64,float32,float64,string,[]byte,time.Time,null.Int/Bool/Float/String/Time,Rec} and wrappers {*τ,[]τ,map[string]τ,struct{X τ}}: " + d + "; per type: every value sequence of length<=2 over the full value alphabet, every length-3 sequence over 3 representatives × {null,deflate,snappy} × block size {0,1,size of two records,65536} × every subset of flush positions, reader rotating over {full reads, 1-byte reads, data+EOF, *bytes.Buffer, 16-byte *bufio.Reader, every other Read returning (0,nil)}; every length-3 sequence again with a flush after each record where the writer refuses the first write of one of the flushes once (nothing consumed) and the flush is retried; 66 multi-field record types (every arrangement of six *int64 / *string fields, and two mixed ones with slices, maps and nested pointers) with 4 value patterns in sequences of <=3 (allocation order inside one record); a record of 130 fields, a map with a 70 000-byte key among 300 others, a record type that takes 40–70 pointed-to values of one type from its bank, and one with arrays of up to 100 zero-width items (records without serialisable fields); for the string and []byte leaves also records of 66–70 kB a 400-record block of >64 KiB (larger than the reader's read-ahead chunk) and a block of 9000 identical records (best-case compression ratio) under every codec; the file is read into T, into a fresh *T, into T with every bank closed as soon as its record is copied, and into a caller-owned *T already used by an earlier read that its callback abandoned at the last record; every record is compared twice: as deep-copied inside the callback, and as a plain struct copy kept by the caller until ReadFile has returned (banks left open); " + what + "; plus FileWriter used directly for 1–3 files at once (headers through WriteHeader or AppendHeader in every combination, 0–4 single-row blocks dealt round-robin), each file parsed on its own; encoders for one row type made before and after schema registrations that change its schema (rows must match the header each time); a case is one (type, sequence, configuration); non-trivial = encoding succeeded and the output reached the oracle"
 }
 
 func register(id string, w which, level, what string, assumptions []string) {
@@ -857,6 +938,7 @@ func register(id string, w which, level, what string, assumptions []string) {
 		RunCase: func(c *fw.Ctx, idx int) {
 			if idx == len(probes(c.Tier)) {
 				runShards(c, w)
+				runRegistrationHistory(c)
 				return
 			}
 			runProbe(c, w, idx, probes(c.Tier)[idx])
